@@ -97,6 +97,8 @@ theorem pres_withNewUuid {α} (p w) (body : String → M α) (hb : ∀ k, Pres (
 macro_rules | `(tactic| pres_lemma) => `(tactic| with_reducible apply pres_withNewUuid)
 theorem pres_matchXtypeGeneric (t h) : Pres (matchXtypeGeneric t h) := by unfold matchXtypeGeneric; pres_auto
 macro_rules | `(tactic| pres_lemma) => `(tactic| with_reducible apply pres_matchXtypeGeneric)
+theorem pres_buildXtype (c) : Pres (buildXtype c) := by unfold buildXtype; pres_auto
+macro_rules | `(tactic| pres_lemma) => `(tactic| with_reducible apply pres_buildXtype)
 theorem pres_matchXtype (t r h) : Pres (matchXtype t r h) := by unfold matchXtype; pres_auto
 macro_rules | `(tactic| pres_lemma) => `(tactic| with_reducible apply pres_matchXtype)
 theorem pres_guessXtype (t r) : Pres (guessXtype t r) := by unfold guessXtype; pres_auto
@@ -107,6 +109,8 @@ theorem pres_nextFresh : Pres nextFresh := by unfold nextFresh; pres_auto
 macro_rules | `(tactic| pres_lemma) => `(tactic| with_reducible apply pres_nextFresh)
 theorem pres_setStringPod (n a w v) : Pres (setStringPod n a w v) := by unfold setStringPod; pres_auto
 macro_rules | `(tactic| pres_lemma) => `(tactic| with_reducible apply pres_setStringPod)
+theorem pres_setPod (P n d v) : Pres (setPod P n d v) := by unfold setPod; pres_auto
+macro_rules | `(tactic| pres_lemma) => `(tactic| with_reducible apply pres_setPod)
 
 
 /-- creation, for every nesting depth: `accCreate`, `ModelElement.__init__`, `RoleTagAccessor.__set__` -/
